@@ -43,7 +43,7 @@ def run_impl(lines):
         if m == 103:
             lint.append(i)
             continue
-        if m in (20, 120, 220, 221, 222):
+        if m in (20, 120, 220, 221, 222, 320):
             layp.append(i)
             continue
         groups["ir" if m == 1 else "fwd" if m == 201 else "grp" if m in (4, 204) else "rt" if (10 <= m <= 19 or m == 21) else "prog"].append(i)
@@ -61,8 +61,15 @@ def run_impl(lines):
         exe = _built["prog"] if k == "prog" else _built["rt"] if k == "rt" else [_built["gen"], k]
         res = vlib.run_lines(exe, [lines[i] for i in idxs], env=env)
         crashed = [j for j, o in enumerate(res) if o is None or o.startswith("!CRASH")]
-        for j in crashed[:50]:
-            res[j] = vlib.run_one(exe, lines[idxs[j]], env=env)
+        if crashed:
+            batch_msg = res[crashed[0]] or "!CRASH"
+            from concurrent.futures import ThreadPoolExecutor
+            with ThreadPoolExecutor(max_workers=vlib.NPROC) as ex:
+                one = list(ex.map(lambda j: vlib.run_one(exe, lines[idxs[j]], env=env), crashed))
+            for j, o in zip(crashed, one):
+                res[j] = o
+            if not any(o.startswith("!CRASH") for o in one):
+                res[crashed[0]] = batch_msg + " [the process died at this case while running a batch; no case crashes on its own]"
         for j, i in enumerate(idxs):
             out[i] = res[j]
     return out
@@ -93,8 +100,8 @@ def wf(ti, im, ret):
 
 def ir_cases(rng, tier, only_wf=True):
     cases = []
-    leaves = [2] if tier != "thorough" else [0, 2, 3, 6, 7]
-    shapes = [[]] + [[(s, 2)] for s in range(NARG_SHAPES)] + [[(1, 0), (4, 3)], [(12, 1), (13, 6)], [(14, 0), (5, 2)], [(3, 0), (0, 5), (7, 2)], [(8, 2), (11, 3)], [(6, 3), (6, 0)]]
+    leaves = [2, 9] if tier != "thorough" else [0, 2, 3, 6, 7, 9]
+    shapes = [[]] + [[(s, 2)] for s in range(NARG_SHAPES)] + [[(4, 9)], [(14, 9)], [(1, 9)], [(0, 9), (5, 9)], [(1, 0), (4, 3)], [(12, 1), (13, 6)], [(14, 0), (5, 2)], [(3, 0), (0, 5), (7, 2)], [(8, 2), (11, 3)], [(6, 3), (6, 0)]]
     for ti in (0, 1):
         for recv in (0, 1, 2):
             for im in (0, 1, 2):
@@ -140,12 +147,12 @@ def ir_cases(rng, tier, only_wf=True):
                 recv, im, ret = rng.below(3), rng.below(3), rng.below(NRET_SHAPES)
                 if wf(ti, im, ret):
                     break
-            args = [(rng.below(NARG_SHAPES), rng.below(9)) for _ in range(rng.range(0, 4))]
+            args = [(rng.below(NARG_SHAPES), rng.below(10)) for _ in range(rng.range(0, 4))]
             if rng.chance(1, 4):
                 im += rng.choice([4, 8, 12])
             if rng.chance(1, 4):
                 recv += 8
-            rows.append(method_row(recv, im, ret, rng.below(9), args))
+            rows.append(method_row(recv, im, ret, rng.below(10), args))
         cases.append("1 %d%s | %s" % (ti, " 1" if rng.chance(1, 3) else "", " ; ".join(" ".join(map(str, r)) for r in rows)))
     return cases, {"ir_exhaustive_single_method": n_ex, "ir_random_multi_method": nrand, "of_which_in_generic_traits": sum(1 for c in cases if c.split("|")[0].split()[2:3] == ["1"])}
 
@@ -244,6 +251,20 @@ def generic_cases(rng, tier):
                 ops.append([c])
         cases.append("102 %d | %s" % (rng.below(3), " ; ".join(" ".join(map(str, o)) for o in ops)))
     return cases, {"generic_trait_histories": len(cases)}
+
+
+def ext_cases(rng, tier):
+    """'105 <container> | calls': the traits the library itself makes CGlue-compatible — Stream, Sink, Debug, Display, AsRef (harness/prog/src/ext.rs)"""
+    fixed = [[0], [0], [0], [1], [2, 5], [2, 13], [3], [2, 6], [1], [2, 7], [1], [4], [1], [2, 8], [5], [6], [7], [0], [0], [0], [0], [3], [4]]
+    cases = ["105 %d | %s" % (k, " ; ".join(" ".join(map(str, o)) for o in fixed)) for k in (0, 1)]
+    n = 30 if tier == "quick" else 800
+    for _ in range(n):
+        ops = []
+        for _ in range(rng.range(1, 30)):
+            c = rng.choice([0, 0, 1, 2, 2, 2, 3, 3, 4, 5, 6, 7])
+            ops.append([2, rng.choice([0, 1, 13, 255, 2 ** 32 - 1, rng.range(0, 1000)])] if c == 2 else [c])
+        cases.append("105 %d | %s" % (rng.below(2), " ; ".join(" ".join(map(str, o)) for o in ops)))
+    return cases, {"ext_trait_histories": len(cases)}
 
 
 def fwd_ir_cases(rng, tier):
@@ -346,10 +367,10 @@ def life_cases(rng, tier, with_borrowed=True):
 def box_cases(rng, tier):
     """'21 <elem> | ops' histories over a pool of CBox / CSliceBox values (harness/rt/src/m_box.rs, coq/model/Boxed.v)"""
     cases = ["21 0 | 0 5 ; 4 0 ; 5 0 0 9 ; 6 0 ; 7 1", "21 0 | 3 1 2 3 ; 4 0 ; 5 0 1 7 ; 5 0 3 8 ; 6 0 ; 6 1", "21 0 | 3 ; 4 0 ; 5 0 0 1 ; 7 0", "21 1 | 3 0 0 0 ; 6 0 ; 7 1",
-             "21 1 | 0 0 ; 8 0", "21 0 | 1 4 ; 8 0 ; 8 0", "21 2 | 2 77 ; 6 0 ; 6 1 ; 4 2", "21 3 | 3 1 70000 ; 5 0 1 5 ; 4 0", "21 1 | 3 ; 7 0", "21 0 | 3 5 ; 6 0"]
+             "21 1 | 0 0 ; 8 0", "21 0 | 1 4 ; 8 0 ; 8 0", "21 2 | 2 77 ; 6 0 ; 6 1 ; 4 2", "21 3 | 3 1 70000 ; 5 0 1 5 ; 4 0", "21 1 | 3 ; 7 0", "21 0 | 3 5 ; 6 0", "21 4 | 0 5 ; 7 0", "21 4 | 1 6 ; 6 0", "21 5 | 2 7 ; 4 0", "21 5 | 3 1 2 3 ; 6 0 ; 7 1", "21 4 | 0 9 ; 8 0"]
     n = 400 if tier == "quick" else 8000
     for k in range(n):
-        elem = k % 4
+        elem = k % 6
         vmax = 0 if elem == 1 else (2 ** 24 - 1 if elem == 3 else 10 ** 6)
         val = lambda: rng.range(0, vmax)
         ops, kinds, lens = [], [], []      # kinds: B OB S OS D
@@ -580,7 +601,7 @@ def layout_probe(lines):
     trait_lines = []
     for k, l in enumerate(lines):
         hdr, a, b = _split_rows(l)
-        if hdr[0] == 20:
+        if hdr[0] in (20, 320):
             trait_lines.append("1 %d | %s" % (hdr[1], " ; ".join(" ".join(map(str, r)) for r in a)))
             trait_lines.append("1 %d | %s" % (hdr[2], " ; ".join(" ".join(map(str, r)) for r in b)))
     rendered = []
@@ -606,6 +627,15 @@ def layout_probe(lines):
                 ti += 1
                 mods.append("pub mod %s%d { use super::*;\n%s}\n" % (side, k, body))
             calls.append("    p(compare_layouts(Some(<a%d::TrBox<'static> as StableAbi>::LAYOUT), Some(<b%d::TrBox<'static> as StableAbi>::LAYOUT)));" % (k, k))
+        elif hdr[0] == 320:
+            # the same pair of traits as MEMBERS of a group (header field 5: 0 = mandatory, 1 = optional member); the groups' layouts are compared
+            role = hdr[4] if len(hdr) > 4 else 1
+            for side in ("a", "b"):
+                body = re.sub(r"pub trait T\d+ ", "pub trait Tr ", rendered[ti])
+                ti += 1
+                grp = "cglue_trait_group!(G, Pa, { Tr });" if role == 1 else "cglue_trait_group!(G, Tr, { Pa });"
+                mods.append("pub mod %s%d { use super::*;\n%s%s\n}\n" % (side, k, body, grp))
+            calls.append("    p(compare_layouts(Some(<a%d::GBox<'static> as StableAbi>::LAYOUT), Some(<b%d::GBox<'static> as StableAbi>::LAYOUT)));" % (k, k))
         else:
             for side, rows in (("a", a), ("b", b)):
                 nm = rows[0][0]
@@ -703,6 +733,12 @@ def layout_cases(rng, tier):
     cases.append(xline(0, b0, 0, ed(lambda r: r[0].__setitem__(1, 16 * 3)), 1))       # renamed
     cases.append(xline(0, b0, 0, ed(lambda r: r.append(method_row(0, 16 * 4, 0, 0, []))), 1))   # added
     cases.append(xline(0, b0, 0, ed(lambda r: r.pop()), 1))                           # removed
+    # the same canonical edits inside a trait that is a MANDATORY (role 0) / OPTIONAL (role 1) member of a group: the group's verdict must follow
+    for c in [x for x in cases if x.startswith("20 ") and len(x.split("|")[0].split()) == 4]:
+        h, body = c.split("|", 1)
+        h = h.split()
+        for role in (0, 1):
+            cases.append("320 %s %s %s %d |%s" % (h[1], h[2], h[3], role, body))
     # groups (monitor only): identical / optional trait added / removed / moved to mandatory
     def gl(a, b):
         enc = lambda g: " ; ".join([str(g[0])] + [enc_name(n) for n in g[1]])
@@ -718,6 +754,6 @@ def layout_expected(l):
     hdr, a, b = _split_rows(l)
     if hdr[0] == 120:
         return 0 if (a[0] == b[0] and sorted(map(tuple, a[1:a[0][0] + 1])) == sorted(map(tuple, b[1:b[0][0] + 1])) and sorted(map(tuple, a[a[0][0] + 1:])) == sorted(map(tuple, b[b[0][0] + 1:]))) else 1
-    if hdr[0] == 20 and len(hdr) > 3:
+    if hdr[0] in (20, 320) and len(hdr) > 3:
         return hdr[3]
     return None
